@@ -34,8 +34,9 @@ _pool = None
 
 
 class Pool:
-    def __init__(self, intmode=None):
+    def __init__(self, intmode=None, np_sites=True):
         self.phase = 0
+        self.np_sites = np_sites          # False: only the adapters' argument copies and value objects are pooled
         self.intmode = intmode            # None | "all" | int seed (per call site coin)
         self.arrays = {}     # key -> list of [obj, original_bytes, phase]
         self.objects = {}
@@ -91,6 +92,10 @@ class Pool:
             return self.as_int(site, a) if site[-1] == "cp" else a
         key = (site, a.dtype.str, a.shape)
         want = a.tobytes()
+        # arrays the adapter built itself (`np.array(...)` sites) are handed out write-protected: an adapter that goes on to
+        # edit one (to place a point on the plane, say) is stopped -- `AdapterWrite` -- and the pair is rebuilt without
+        # pooling those sites; a library function that writes into its argument raises inside the library instead.
+        protect = site[-1] != "cp"
         entries = self.arrays.setdefault(key, [])
         for e in entries:
             if e[1] == want:
@@ -100,14 +105,23 @@ class Pool:
         for e in entries:
             if e[2] < self.phase:
                 try:
+                    e[0].flags.writeable = True
                     _np.copyto(e[0], a)
                 except Exception:
                     continue
+                finally:
+                    if protect:
+                        try:
+                            e[0].flags.writeable = False
+                        except Exception:
+                            pass
                 e[1] = want
                 e[2] = self.phase
                 self.stats["overwritten_in_place"] += 1
                 return e[0]
         entries.append([a, want, self.phase])
+        if protect:
+            a.flags.writeable = False
         self.stats["fresh"] += 1
         return a
 
@@ -142,13 +156,13 @@ class _NpProxy:
 
     def array(self, *a, **k):
         r = _np.array(*a, **k)
-        if _pool is None or k.get("copy") is False:
+        if _pool is None or k.get("copy") is False or not _pool.np_sites:
             return r
         return _pool.arr(self._site(), r)
 
     def asarray(self, *a, **k):
         r = _np.asarray(*a, **k)
-        if _pool is None or (a and isinstance(a[0], _np.ndarray)):
+        if _pool is None or (a and isinstance(a[0], _np.ndarray)) or not _pool.np_sites:
             return r                    # a view of / the very object the adapter was handed: never pooled
         return _pool.arr(self._site(), r)
 
@@ -212,10 +226,28 @@ def _pooled_class(cls):
 VALUE_CLASSES = ("Plane", "Polyline", "Line", "Box")
 
 
+class AdapterWrite(Exception):
+    """an adapter tried to edit a pooled array it had built itself"""
+
+
+def adapter_write(exc):
+    """is `exc` numpy's refusal to write into a write-protected array, raised from adapter code (harness/props)?"""
+    if not isinstance(exc, ValueError) or "read-only" not in str(exc):
+        return False
+    tb = exc.__traceback__
+    last = None
+    while tb is not None:
+        last = tb.tb_frame.f_code.co_filename
+        tb = tb.tb_next
+    import os
+    return last is not None and (os.sep + "props" + os.sep) in last and "polliwog" not in last
+
+
 class scope:
     """with scope(modules) as pool:  pooled construction inside the adapter modules for the duration"""
 
-    def __init__(self, modules, classes=VALUE_CLASSES, intmode=None):
+    def __init__(self, modules, classes=VALUE_CLASSES, intmode=None, np_sites=True):
+        self.np_sites = np_sites
         self.modules = [m for m in modules if m is not None]
         self.classes = tuple(classes) if intmode is None else VALUE_CLASSES
         self.intmode = intmode
@@ -223,7 +255,7 @@ class scope:
 
     def __enter__(self):
         global _pool
-        _pool = Pool(self.intmode)
+        _pool = Pool(self.intmode, self.np_sites)
         proxy = _NpProxy()
         for m in self.modules:
             d = m.__dict__
